@@ -11,7 +11,8 @@ UNIT = Unit(
     rules=["attrs", "fmtmsg", "opt_is_some_and"],
     describe="name_resolution::NameResolution::resolve_expr, EPath arm, the gate for qualified value paths (fragment): a path whose first segment is a package the current "
              "package depends on but that the current FILE may not name (not its own package, not Builtin, not imported by this file) leaves the error `package X not imported`, "
-             "whatever the path goes on to name — a function, an associated function `X::T::f`, a trait method `X::Tr::m`",
+             "whatever the path goes on to name — a function, an associated function `X::T::f`, a trait method `X::Tr::m`; (fragment ctor_path_gate of constructor_path_for) the same for a "
+             "three-segment constructor path `P::Enum::Variant`, the only gate a constructor PATTERN goes through",
     trusted=["FRAGMENT: from `let full_name = path.display();` to the resolution of the path; the path's first segment and display text, the dependency table and the export "
              "tables are stubs (deps: the set of packages the PACKAGE depends on); package_allowed carries U-PKGALLOW's contract; the message text is dropped"],
     items=base + [
@@ -28,5 +29,15 @@ UNIT = Unit(
            obligation="first segment is a dependency the file may not name ==> an error is pushed",
            contract="ensures final(self).n_errors() >= old(self).n_errors(),\n"
                     "  must_report(*path, ctx.deps.names(), ctx.current_package@, ctx.imports@) ==> final(self).n_errors() > old(self).n_errors(),"),
+        Fn(file=N, name="constructor_path_for", container="NameResolution", rename="ctor_path_gate", ret="r", as_method_of="NameResolution",
+           rules=["attrs", "fmtmsg", ("strip", "hir::")],
+           cut_from=re.compile(r"let exists = ctx\s*\.constructor_index\s*\.enum_has_variant\(package, enum_name, variant\);"), cut_before="@block-end", cut_tail="",
+           sig="fn ctor_path_gate(&mut self, ctx: &ResolutionContext, package: &String, enum_name: &String, variant: &String) -> Option<HirPath>",
+           rewrites=[(re.compile(r"(\w+)\.then\(\|\| (constructor_path\((?:[^()]|\([^()]*\))*\))\)"), r"(if \1 { Some(\2) } else { None })", "*"),
+                     (re.compile(r"\((\w+ && [^()]*(?:\([^()]*\))?[^()]*)\)\s*\.then\(\|\| (constructor_path\((?:[^()]|\([^()]*\))*\))\)"), r"(if \1 { Some(\2) } else { None })", "*")],
+           obligation="a constructor path `P::Enum::Variant` that names an existing variant of a package the file may not name leaves an error and resolves to nothing — in a "
+                      "pattern this is the only import check the path meets",
+           contract="ensures final(self).n_errors() >= old(self).n_errors(),\n"
+                    "  ctx.constructor_index.has(package@, enum_name@, variant@) && !may_name(package@, ctx.current_package@, ctx.imports@) ==> final(self).n_errors() > old(self).n_errors() && r is None,"),
     ],
 )
